@@ -1313,8 +1313,10 @@ class ClassNode(AstNode, NamespaceMixin):
         newfcns = []
         for fcn in self.functions:
             newfcn = fcn.clone()
-            newfcn.fmtdict.reparent(new.fmtdict)
-            newfcn.options.reparent(new.options)
+            newfcn.fmtdict.reparent(clone_scope_chain(
+                fcn.fmtdict.get_parent(), self.fmtdict, new.fmtdict))
+            newfcn.options.reparent(clone_scope_chain(
+                fcn.options.get_parent(), self.options, new.options))
             newfcns.append(newfcn)
         new.functions = newfcns
 
@@ -1329,6 +1331,21 @@ class ClassNode(AstNode, NamespaceMixin):
             self.map_name_to_node[var.name] = var
         for node in self.functions:
             self.map_name_to_node[node.ast.name] = node
+
+
+def clone_scope_chain(scope, old, new):
+    """Return the parent Scope for a function cloned into a new class.
+
+    The Scopes between a function and its class (blocks) are cloned
+    to keep their options and format fields; the Scope of the
+    class, old, is replaced by new.
+    """
+    if scope is None or scope is old:
+        return new
+    clone = scope.clone()
+    clone.reparent(clone_scope_chain(scope.get_parent(), old, new))
+    return clone
+
 
 ######################################################################
 
